@@ -1,6 +1,7 @@
 CONSTANTS
   EB = 20
   StaleP = 200
+  BT = 300
   MaxOps = 100000
   MaxMonths = 100000
   GenHist = FALSE
